@@ -929,3 +929,72 @@ def _ledger_induction():
 
 
 REG.lemma("C02.whole_run_ledger_sums_follow_from_the_per_period_clauses", _ledger_induction, props=("C02",))
+
+
+# ============================================================================ Simulator.__init__: the initial state (base case of the whole-run inductions)
+BA = "acnportal.algorithms.base_algorithm.BaseAlgorithm."
+_reg_iface = [C("interface_attached", lambda old, new, ret: new.self._interface == old.interface)]
+REG.contract(
+    BA + "register_interface", params=dict(self=Ref("BaseAlgorithm"), interface=Ref("Interface")),
+    # frame wide enough for every override in the repository: the sorting algorithms also attach the interface to their rate estimator
+    modifies=[("BaseAlgorithm._interface", lambda s: [s.self]), ("UpperBoundEstimatorBase._interface", "ALL")],
+    ensures=_reg_iface, iface=_reg_iface)
+
+
+def _stored_ts_nonneg(q):
+    """every timestamp stored in the queue's heap array is a period >= 0"""
+    from .events import qv
+    v = qv(q)
+    i = z3.Int("qi!ts0")
+    return FA([i], z3.Implies(z3.And(i >= 0, i < v.len), z3.Select(v.arrs[0], i) >= 0), patterns=[z3.Select(v.arrs[0], i)])
+
+
+def _sim_init_post(old, new, ret):
+    sim = new.self
+    n = old.network._EVSEs.keys.len
+    p, j = z3.Int("p!si"), z3.Int("j!si")
+    last = old.events.get_last_ts if False else None
+    return [
+        ("C04.pilot_matrix_starts_as_zeros_one_row_per_station",
+         And(sim.pilot_signals.rows == n, sim.pilot_signals.cols >= 1, FA([p, j], sim.pilot_signals[p, j] == 0))),
+        ("C02.rate_matrix_starts_as_zeros_one_row_per_station_and_the_peak_as_zero",
+         And(sim.charging_rates.rows == n, sim.charging_rates.cols == sim.pilot_signals.cols, FA([p, j], sim.charging_rates[p, j] == 0), Eq(sim.peak, 0))),
+        ("C01.starts_at_period_zero_with_empty_histories", And(sim._iteration == 0, sim.event_history.len == 0, sim.ev_history.keys.len == 0)),
+        ("C05.nothing_owed_and_never_scheduled", And(Not(sim._resolve), sim._last_schedule_update.isnone)),
+        ("wired_as_given", And(sim.network == old.network, sim.event_queue == old.events, sim.scheduler == old.scheduler, Eq(sim.period, old.period),
+                               sim.verbose == old.verbose, sim.start == old.start)),
+        ("C05.scheduler_attached_through_an_interface_on_this_simulator",
+         Implies(Not(IsNone(old.scheduler)), And(Not(IsNone(new.obj(old.scheduler.ref, "BaseAlgorithm")._interface)),
+                                                 new.obj(old.scheduler.ref, "BaseAlgorithm")._interface._simulator == sim,
+                                                 Eq(sim.max_recompute.isnone, old.scheduler.max_recompute.isnone),
+                                                 Implies(Not(old.scheduler.max_recompute.isnone), sim.max_recompute.val == old.scheduler.max_recompute.val)))),
+        ("no_scheduler_no_recompute_bound", Implies(IsNone(old.scheduler), sim.max_recompute.isnone)),
+    ]
+
+
+REG.contract(
+    S + "__init__",
+    params=dict(self=Ref("Simulator"), network=Ref("ChargingNetwork", exact=True), scheduler=Ref("BaseAlgorithm", nullable=True), events=Ref("EventQueue"),
+                start=Ref("datetime"), period=Real, signals=Map(Id, Ref("TimeOfUseTariff")), store_schedule_history=Bool, verbose=Bool),
+    requires=[C("queue_wf", lambda s: qinv(s, s.events)),
+              C("no_event_before_period_zero", lambda s: _stored_ts_nonneg(s.events))],
+    modifies=[("Simulator." + f, lambda s: [s.self]) for f in ("network", "scheduler", "max_recompute", "event_queue", "start", "period", "signals", "verbose", "pilot_signals",
+                                                               "charging_rates", "peak", "ev_history", "event_history", "schedule_history", "_iteration", "_resolve",
+                                                               "_last_schedule_update")]
+             + [("BaseAlgorithm._interface", lambda s: [s.scheduler]), ("UpperBoundEstimatorBase._interface", "ALL"), ("Interface._simulator", "FRESH"), "alloc"],
+    ensures=[C("initial_state", _sim_init_post, props=("C01", "C02", "C04", "C05"))],
+)
+
+_est_iface = [C("interface_attached", lambda old, new, ret: new.self._interface == old.interface)]
+REG.contract(
+    "acnportal.algorithms.upper_bound_estimator.UpperBoundEstimatorBase.register_interface",
+    params=dict(self=Ref("UpperBoundEstimatorBase"), interface=Ref("Interface")),
+    modifies=[("UpperBoundEstimatorBase._interface", lambda s: [s.self])], ensures=_est_iface, iface=_est_iface)
+# the override of the sorting algorithms also hands the interface to their rate estimator: verified against the same interface-level clause
+REG.contract(
+    "acnportal.algorithms.sorted_algorithms.SortedSchedulingAlgo.register_interface",
+    params=dict(self=Ref("SortedSchedulingAlgo"), interface=Ref("Interface")),
+    modifies=[("BaseAlgorithm._interface", lambda s: [s.self]), ("UpperBoundEstimatorBase._interface", lambda s: [(s.self.max_rate_estimator, Not(IsNone(s.self.max_rate_estimator)))])],
+    ensures=_reg_iface + [C("estimator_attached_too", lambda old, new, ret: Implies(Not(IsNone(old.self.max_rate_estimator)),
+                                                                                  new.self.max_rate_estimator._interface == old.interface))],
+    iface=_reg_iface)
